@@ -8,6 +8,7 @@ package sio
 
 import (
 	"context"
+	"encoding/json"
 	"fmt"
 	"sort"
 	"strings"
@@ -67,6 +68,44 @@ func runC14Sio(c *sim.Ctx, t *testing.T, failing bool) {
 	}
 	poisoned := map[string]bool{}
 	for k := 0; k < nmsgs; k++ {
+		if !failing && k > 0 && len(mids) > 1 && c.Chance(1, 6, "replace") {
+			// between two submitted messages the host replaces a machine: one is deleted and a
+			// new one (another id) created, with no broadcast in between
+			gone := mids[c.Intn(len(mids), "gone")]
+			fresh := fmt.Sprintf("x%d", k)
+			b, _ := json.Marshal(vfRecorderSpec())
+			var specJSON interface{}
+			json.Unmarshal(b, &specJSON)
+			ops := []map[string]interface{}{
+				{"id": fmt.Sprintf("del%d", k), "to": "captain", "delete": []interface{}{gone}},
+				{"id": fmt.Sprintf("new%d", k), "to": "captain", "update": map[string]interface{}{fresh: map[string]interface{}{"spec": map[string]interface{}{"inline": specJSON}}}},
+			}
+			if c.Bool("createfirst") {
+				ops[0], ops[1] = ops[1], ops[0]
+			}
+			for _, m := range ops {
+				var perr error
+				if c.Guard("ProcessMsg "+ref.Canon(m), func() { _, perr = crew.ProcessMsg(ctx, vfJSONCopy(m)) }) {
+					return
+				}
+				if perr != nil {
+					c.Violate(prop+":sio:error", "ProcessMsg(%s) failed: %v", vfShort(ref.Canon(m)), perr)
+					return
+				}
+			}
+			delete(present, gone)
+			delete(recorders, gone)
+			var rest []string
+			for _, m := range mids {
+				if m != gone {
+					rest = append(rest, m)
+				}
+			}
+			mids = append(rest, fresh)
+			present[fresh], recorders[fresh] = true, true
+			g.mids = mids
+			c.Count("machines_replaced")
+		}
 		msg := g.message(2)
 		if c.Chance(1, 6, "wreck") {
 			// (only on a submitted message: the order within a round of a cascade is unspecified)
